@@ -8,7 +8,11 @@ Stages == {"method", "sp1", "target", "sp2", "version", "eol", "fieldname", "col
 Classes == {"nul", "ctl", "highbit", "space", "tab", "cr", "lf", "colon", "digitoverflow", "negative", "huge", "empty", "truncate", "duplicate", "longtoken", "percent", "quote"}
 VARIABLES par, done
 vars == <<par, done>>
-Init == par \in [side : {"client", "origin"}, stage : Stages, cls : Classes] /\ done = FALSE
+\* syntactically well-formed origin responses whose header VALUES are extreme or contradictory (times, ages, lengths); each is requested
+\* twice, the second time after the clock moved, so that whatever was stored is used again
+Semantic == {"age_max", "age_over", "age_neg", "age_max_nodate", "date_future", "date_1970", "date_garbage", "expires_nodate", "expires_garbage",
+             "lm_future", "maxage_over", "smaxage_neg", "cl_zero_body", "vary_long", "etag_long", "many_fields", "status_999", "status_100_only"}
+Init == par \in [side : {"client", "origin"}, stage : Stages, cls : Classes] \cup [side : {"origin"}, stage : {"semantic"}, cls : Semantic] /\ done = FALSE
         /\ (par.side = "client" => par.stage \notin {"statusline", "statuscode", "reason"})
         /\ (par.side = "origin" => par.stage \notin {"method", "sp1", "target", "sp2"})
 Next == ~done /\ done' = TRUE /\ UNCHANGED par
